@@ -153,6 +153,10 @@ def run(ctx):
         case = dict(kind=kindq, n_batches=kw["n_batches"], n=int(len(want)), head=want[:8], via=via)
         try:
             if via == "run_worker":
+                if rng.random() < 0.4:
+                    # the branch make_full_samples uses: one child generator is attached to every task
+                    kw["rng"] = np.random.default_rng(int(rng.integers(0, 2 ** 31)))
+                    case["with_rng"] = True
                 res = mh.run_worker(ident, pool, path, task_args=(), **kw)
             else:
                 # one level up: the helper every likelihood evaluation goes through (the pool answers in place of the
